@@ -43,7 +43,7 @@ func init() {
 			},
 		},
 		&Routine{
-			Name: "Dtrtrs", Dims: []string{"n", "nrhs"}, Flags: []FlagSpec{fUplo(), fTrans(), fDiag()},
+			Name: "Dtrtrs", Dims: []string{"n", "nrhs"}, Flags: []FlagSpec{fUplo(), fTrans3(), fDiag()},
 			Layout: func(b *Builder) {
 				ul, _, dg := b.Flag("uplo"), b.Flag("trans"), b.Flag("diag")
 				n, nrhs := b.Dim("n"), b.Dim("nrhs")
@@ -68,7 +68,7 @@ func init() {
 			},
 		},
 		&Routine{
-			Name: "Dtbtrs", Dims: []string{"n", "kd", "nrhs"}, Flags: []FlagSpec{fUplo(), fTrans(), fDiag()},
+			Name: "Dtbtrs", Dims: []string{"n", "kd", "nrhs"}, Flags: []FlagSpec{fUplo(), fTrans3(), fDiag()},
 			Layout: func(b *Builder) {
 				ul, _, dg := b.Flag("uplo"), b.Flag("trans"), b.Flag("diag")
 				n, kd, nrhs := b.Dim("n"), b.Dim("kd"), b.Dim("nrhs")
@@ -80,7 +80,7 @@ func init() {
 			},
 		},
 		&Routine{
-			Name: "Dlatrs", Dims: []string{"n"}, Flags: []FlagSpec{fUplo(), fTrans(), fDiag(), {"normin", Bools}},
+			Name: "Dlatrs", Dims: []string{"n"}, Flags: []FlagSpec{fUplo(), fTrans3(), fDiag(), {"normin", Bools}},
 			Layout: func(b *Builder) {
 				ul, _, dg, normin := b.Flag("uplo"), b.Flag("trans"), b.Flag("diag"), b.Flag("normin")
 				n := b.Dim("n")
@@ -97,7 +97,7 @@ func init() {
 			},
 		},
 		&Routine{
-			Name: "Dlatbs", Dims: []string{"n", "kd"}, Flags: []FlagSpec{fUplo(), fTrans(), fDiag(), {"normin", Bools}},
+			Name: "Dlatbs", Dims: []string{"n", "kd"}, Flags: []FlagSpec{fUplo(), fTrans3(), fDiag(), {"normin", Bools}},
 			Layout: func(b *Builder) {
 				ul, _, dg, normin := b.Flag("uplo"), b.Flag("trans"), b.Flag("diag"), b.Flag("normin")
 				n, kd := b.Dim("n"), b.Dim("kd")
